@@ -30,6 +30,8 @@ func rulesC05(c *Ctx, r *Report) {
 	rulesNewickNames(c, r)
 	rulesNewickWriter(c, r)
 	rulesNewickChildren(c, r)
+	rulesNewickTokenizer(c, r)
+	rulesNewickParser(c, r)
 	rulesPassAllFor(c, r, "formats/newick", 2)
 	rulesNoBufferedPkg(c, r, "formats/newick")
 	rulesNumWidth(c, r, "formats/newick")
